@@ -33,6 +33,7 @@ type Gen struct {
 	nextH   int64
 	clock   int64
 	pending []Call
+	removed []string        // names that were removed (re-creating them exercises tombstones)
 	used    map[string]bool // every name ever handed out (clean mode never renames onto one)
 	sized   map[string]bool // files that (probably) have content
 }
@@ -60,6 +61,13 @@ func (g *Gen) pickExisting() string {
 }
 
 func (g *Gen) newName() string {
+	// now and then re-create a name that was removed earlier (delete-then-recreate histories)
+	if len(g.removed) > 0 && g.R.Intn(6) == 0 {
+		n := g.removed[g.R.Intn(len(g.removed))]
+		if g.isShadowDir(path.Dir(n)) && !g.isShadowDir(n) && !g.isShadowFile(n) {
+			return n
+		}
+	}
 	d := g.pickDir()
 	if strings.Count(d, "/") > 3 {
 		d = "/"
@@ -114,7 +122,7 @@ func (g *Gen) spell(p string) string {
 	case 0:
 		return p + "/"
 	case 1:
-		if g.P.Wild {
+		if p != "/" {
 			return strings.TrimPrefix(p, "/")
 		}
 	case 2:
@@ -129,6 +137,9 @@ func (g *Gen) perm() int64 {
 }
 
 func (g *Gen) removeShadow(p string) {
+	if p != "/" && len(g.removed) < 64 {
+		g.removed = append(g.removed, p)
+	}
 	keep := func(xs []string) []string {
 		out := xs[:0:0]
 		for _, x := range xs {
@@ -281,7 +292,7 @@ func (g *Gen) Next() Call {
 			}
 		}
 		_ = sub
-		return Call{"rename", []string{enc(from), enc(to)}}
+		return Call{"rename", []string{enc(g.spell(from)), enc(g.spell(to))}}
 	case r < 65:
 		return Call{"chmod", []string{enc(g.spell(g.pickExisting())), fmt.Sprint(g.perm())}}
 	case r < 68:
@@ -318,6 +329,9 @@ func (g *Gen) Next() Call {
 		if g.P.Symlinks {
 			target := g.pickExisting()
 			l := g.newName()
+			g.nextH++
+			id := fmt.Sprint(g.nextH)
+			g.pending = []Call{{"open", []string{id, enc(path.Dir(l))}}, {"hreaddir", []string{id, fmt.Sprint(1 + g.R.Intn(3))}}, {"hclose", []string{id}}}
 			return Call{"symlink", []string{enc(target), enc(l)}}
 		}
 		return Call{"lstat", []string{enc(g.pickExisting())}}
